@@ -2477,6 +2477,49 @@ func TabUTF8(p *load.Program) *report.RuleResult {
 				}
 			}
 		}
+		// in the text reader the test must cover each of the three token kinds whose text reaches the caller
+		if found != "" && fnn == "tokenizer.ReadValue" {
+			var tokParam *ssa.Parameter
+			for _, pa := range fn.Params {
+				if ssau.TypeName(pa.Type()) == "token" {
+					tokParam = pa
+				}
+			}
+			_, tokVals := namedConstsOf(p, "token")
+			if tokParam != nil {
+				ef := ssau.TrackEnum(fn, matchPath(ssau.Path(tokParam)))
+				covered := map[string]bool{}
+				inFn := false
+				for _, b := range fn.Blocks {
+					for _, in := range b.Instrs {
+						c, ok := in.(ssa.CallInstruction)
+						if !ok {
+							continue
+						}
+						if f := c.Common().StaticCallee(); f != nil && f.Pkg != nil && f.Pkg.Pkg.Path() == "unicode/utf8" && strings.HasPrefix(f.Name(), "Valid") {
+							inFn = true
+							vs, _ := ef.At(in)
+							if !vs.Known() {
+								covered["*"] = true
+							}
+							for _, k := range vs.Values() {
+								covered[k] = true
+							}
+						}
+					}
+				}
+				if inFn && !covered["*"] {
+					for _, kn := range []string{"tokenString", "tokenLongString", "tokenSymbolQuoted"} {
+						what := "text of " + kn + " validated as UTF-8"
+						if v, ok := tokVals[kn]; ok && covered[sprintf("%d", v)] {
+							r.OK(p.FuncName(fn), p.Pos(fn.Pos()), what, "the validity test is reached for this token kind")
+						} else if ok {
+							r.Bad(p.FuncName(fn), p.Pos(fn.Pos()), what, "the UTF-8 validity test is not reached for this token kind: raw bytes that are not UTF-8 inside such a token are handed to the caller with Err() == nil")
+						}
+					}
+				}
+			}
+		}
 		if found != "" {
 			r.OK(p.FuncName(fn), p.Pos(fn.Pos()), "string text validated as UTF-8", "utf8."+"Valid* at "+found)
 		} else {
